@@ -11,6 +11,12 @@ EX = "exploration"
 CHECKS = {
     "C01": (MC, "E2+E1", "explicit-state model checking: complete closure of the reference model's state graph over the op alphabet with every transition replayed on the real Hypergraph from up to 3 representative histories, plus all histories to a depth; full public query surface compared after every step",
             "3.C01", "reference model + facade correct; universe of 2-4 nodes, weights capped at 3 in closures; deepcopy forks states faithfully"),
+    "C02": (MC, "E2+E1", "explicit-state model checking of DirectedHypergraph: closure of the (source set, target set) map model over the alphabet with every transition replayed on the real class from up to 3 representative histories, plus all histories to a depth; role-specific queries (sources/targets/source edges/target edges/in-out degree) compared after every step",
+            "3.C02", "reference model + facade correct; 3 nodes, 6 (quick) / all 12 (thorough) directed hyperedges; weights capped in closures"),
+    "C03": (MC, "E2+E1", "explicit-state model checking of TemporalHypergraph: closure over (time, node set) records with every transition replayed on the real class; every time window, every per-time snapshot and every aggregation width compared with the definition after every step; invalid times must be rejected without effect",
+            "3.C03", "reference model + facade correct; 2-3 nodes, times {0,1,2}, windows over [0,3], widths 1..4"),
+    "C04": (MC, "E2+E1", "explicit-state model checking of MultiplexHypergraph: closure over (node set, layer) records with every transition replayed on the real class; aggregated hypergraph, edge overlap and the layer registry compared after every step, and the multiplex object re-observed after the derivations",
+            "3.C04", "reference model + facade correct; 2-3 nodes, layers {a,b}(,c); layer registry compared by bounds (in use <= registry <= ever seen)"),
 }
 PENDING = {}
 for i in range(1, 21):
